@@ -174,9 +174,10 @@ class Capture:
         self.vitp.write_molecule_itp, self.gi.find_missing_edges, self.gi.LOGGER = self.orig_write, self.orig_missing, self.orig_logger
 
 
-def run_command(argv, cwd):
+def run_command(argv, cwd, keep_existing=False):
     """`polyply gen_params ...` exactly as the command line runs it (bin/polyply main()), in this process.
-    Returns the observation record (without the read-back part)."""
+    Returns the observation record (without the read-back part).  keep_existing: an output file of an earlier run is left in place
+    (histories: the command overwrites it); "written" then means that the file at the path is a new one."""
     from vermouth.file_writer import DeferredFileWriter
     out = None
     for i, tok in enumerate(argv):
@@ -188,8 +189,13 @@ def run_command(argv, cwd):
     for i, tok in enumerate(argv):
         if tok == "-name" and i + 1 < len(argv):
             name = argv[i + 1]
+    before = None
     if out.exists():
-        out.unlink()
+        if keep_existing:
+            st = out.stat()
+            before = (st.st_ino, st.st_mtime_ns, st.st_size)
+        else:
+            out.unlink()
     old_argv, old_cwd = sys.argv, os.getcwd()
     cap = Capture()
     rec = {"argv": list(argv), "name": name, "out": str(out), "exception": "", "accepted": False}
@@ -221,6 +227,9 @@ def run_command(argv, cwd):
     rec["req"] = cap.req
     rec["missing"] = cap.missing() if cap.stage != "start" else None
     rec["written"] = out.exists()
+    if rec["written"] and before is not None:
+        st = out.stat()
+        rec["written"] = (st.st_ino, st.st_mtime_ns, st.st_size) != before
     rec["text"] = out.read_text() if rec["written"] else ""
     return rec
 
@@ -436,7 +445,7 @@ def _meta_json(rng, guard, extra=None):
     return (" " + json.dumps(m)) if m else ""
 
 
-def random_polymer(rng):
+def random_polymer(rng, exotic=True):
     """(ff text, residue graph JSON, description): 3-4 block types of 1-3 atoms with interactions of every section (guards, comments,
     groups, #meta lines), links that bond consecutive / adjacent residues (some residue-name pairs deliberately have no link), angle,
     dihedral (two terms), pair, exclusion, constraint and virtual-site links; 5-8 residues in a chain or a tree with a ring closure"""
@@ -463,7 +472,7 @@ def random_polymer(rng):
         for _ in range(rng.randint(0, 5)):
             sec = rng.choice(["bonds", "bonds", "constraints", "angles", "dihedrals", "impropers", "pairs", "exclusions", "virtual_sites2",
                               "virtual_sitesn", "position_restraints", "dihedrals"])
-            if rng.random() < 0.03:
+            if rng.random() < 0.03 and exotic:
                 sec = rng.choice(["angle_restraints_z", "virtual_sites3", "dihedral_restraints"])
             n = NAT[sec]
             if sec == "exclusions":
